@@ -21,7 +21,7 @@ func mutateFields(r *rng.R, f *ach.File, k int) {
 	var fields []reflect.Value
 	var walk func(v reflect.Value, depth int)
 	walk = func(v reflect.Value, depth int) {
-		if depth > 10 {
+		if depth > 16 {
 			return
 		}
 		switch v.Kind() {
@@ -79,6 +79,42 @@ func mutateFields(r *rng.R, f *ach.File, k int) {
 }
 
 // genValidFile: a valid file from the shared generator; the seed also picks the content options.
+// prefixCodes: the code fields of return / change addenda written the way people say them ("R01" in a two-column
+// reason code, "C01" is already the form of a change code): formatters that normalise such a value must do so on a
+// copy.  Every string field whose name ends in ReasonCode of every return addenda gets an "R" in front, one time in two.
+func prefixCodes(r *rng.R, f *ach.File) {
+	var walk func(v reflect.Value, depth int)
+	walk = func(v reflect.Value, depth int) {
+		if depth > 16 {
+			return
+		}
+		switch v.Kind() {
+		case reflect.Pointer, reflect.Interface:
+			if !v.IsNil() {
+				walk(v.Elem(), depth+1)
+			}
+		case reflect.Struct:
+			t := v.Type()
+			for i := 0; i < v.NumField(); i++ {
+				fl := t.Field(i)
+				if !fl.IsExported() && !fl.Anonymous {
+					continue
+				}
+				if fl.Type.Kind() == reflect.String && strings.HasSuffix(fl.Name, "ReasonCode") && v.Field(i).CanSet() && r.Bool() {
+					v.Field(i).SetString("R" + v.Field(i).String())
+					continue
+				}
+				walk(v.Field(i), depth+1)
+			}
+		case reflect.Slice:
+			for i := 0; i < v.Len(); i++ {
+				walk(v.Index(i), depth+1)
+			}
+		}
+	}
+	walk(reflect.ValueOf(f), 0)
+}
+
 func genValidFile(fc fileCase) *ach.File {
 	r := rng.New(fc.Seed)
 	b := fc.Seed >> 8
@@ -161,6 +197,9 @@ func genFileCase(r *rng.R, fx []fixture) fileCase {
 		return fileCase{Kind: "json", Name: f.name, TextHex: hex.EncodeToString(f.data), Opts: randMask(r), NoOpts: r.Chance(1, 2)}
 	case pick < 66:
 		return fileCase{Kind: "gen", Seed: r.U64() | 1, Opts: randMask(r), NoOpts: r.Chance(1, 2)}
+	case pick < 67:
+		// return addenda whose reason codes carry the letter ("R01" in a two-column field); returns forced on
+		return fileCase{Kind: "gencodes", Seed: (r.U64()|1|32<<8)&^(0xf<<8) | 1<<8, Opts: randMask(r), NoOpts: r.Chance(2, 3)}
 	case pick < 69:
 		// the date and time fields given as RFC 3339 timestamps (FileCreationDateField / FileCreationTimeField accept them)
 		return fileCase{Kind: "gendates", Seed: r.U64() | 1, Opts: randMask(r), NoOpts: r.Chance(2, 3)}
